@@ -1,0 +1,187 @@
+//go:build verif
+
+// Contracts for the deductive verifier in /verif (govc). Only compiled with -tags verif.
+
+package main
+
+import "strings"
+
+//@ func assert_
+//@   requires b
+
+func assert_(b bool) {}
+
+// ---- recording what was done: executeMountProfileUpdate ---------------------------------
+
+//@ func isRecorded
+//@   pure
+
+// a change leaves an entry in the recorded profile iff it is a mount or a keep
+func isRecorded(c *Change) bool { return c.Action == Mount || c.Action == Keep }
+
+//@ func specRecorded
+//@   pure
+
+// number of recorded changes among cs[0..k)
+func specRecorded(cs []*Change, k int) int {
+	if k <= 0 || k > len(cs) {
+		return 0
+	}
+	if isRecorded(cs[k-1]) {
+		return specRecorded(cs, k-1) + 1
+	}
+	return specRecorded(cs, k-1)
+}
+
+//@ define sameEntry(a osutil.MountEntry, b osutil.MountEntry) = a.Name == b.Name && a.Dir == b.Dir && a.Type == b.Type && a.Options == b.Options && a.DumpFrequency == b.DumpFrequency && a.CheckPassNumber == b.CheckPassNumber
+
+//@ func executeMountProfileUpdate
+//@   props C28
+//@   loop 1: invariant -1 <= idx1 && idx1 < len(changesNeeded)
+//@   loop 1: step err == nil ==> len(changesMade) > old(len(changesMade)) && changesMade[len(changesMade)-1] == change
+//@   loop 2: invariant -1 <= idx2 && idx2 < len(changesMade)
+//@   loop 2: invariant len(currentAfter.Entries) == specRecorded(changesMade, idx2+1)
+//@   loop 2: invariant forall k int :: {changesMade[k]} 0 <= k && k <= idx2 && isRecorded(changesMade[k]) ==> 0 <= specRecorded(changesMade, k) && specRecorded(changesMade, k) < len(currentAfter.Entries)
+//@   loop 2: invariant forall k int :: {changesMade[k]} 0 <= k && k <= idx2 && isRecorded(changesMade[k]) ==> sameEntry(currentAfter.Entries[specRecorded(changesMade, k)], changesMade[k].Entry)
+//@   guard call SaveCurrentProfile: len(arg0.Entries) == specRecorded(changesMade, len(changesMade))
+//@   guard call SaveCurrentProfile: forall k int :: {changesMade[k]} 0 <= k && k < len(changesMade) && isRecorded(changesMade[k]) ==> sameEntry(arg0.Entries[specRecorded(changesMade, k)], changesMade[k].Entry)
+//@   guard call SaveCurrentProfile: idx1 == len(changesNeeded)
+//@   ensures result == nil ==> called("SaveCurrentProfile")
+
+// ---- computing the changes: neededChanges -------------------------------------------------
+
+//@ func specID
+//@   pure
+
+func specID(dir, fsType string) mountEntryId { return mountEntryId{dir, fsType} }
+
+// ---- the simulated directory tree ----------------------------------------------------------
+
+// The directory tree is consulted through osutilIsDirectory (= osutil.IsDirectory, a stat call), whose
+// verdict is the ghost predicate dirExists (declared with the contract of osutil.IsDirectory).
+
+//@ func findFirstRootDirectoryThatExists
+//@   props C28
+//@   assigns nothing
+//@   ensures dirExists(result)
+//@   ensures dirExists(desiredParentDir) ==> result == desiredParentDir
+
+// The three func literals of neededChanges. They are stored in locals and called through them: for
+// the engine these are calls of unknown function values, so each call site gets (assumed: the local
+// holds the literal it was declared with) the frame that is proved here for the literal.
+
+//@ func neededChanges$1
+//@   props C28
+//@   assigns nothing
+
+//@ func neededChanges$2
+//@   props C28
+//@   assigns C:Slice Md:Str:Bool Mv:Str:Bool Mc:Str:Bool H:osutil.MountEntry.Name H:osutil.MountEntry.Dir H:osutil.MountEntry.Type H:osutil.MountEntry.Options H:osutil.MountEntry.DumpFrequency H:osutil.MountEntry.CheckPassNumber
+//@   ensures addedDesiredEntries[entry.Dir]
+
+//@ func neededChanges$3
+//@   props C28
+//@   assigns C:Slice Md:Str:Bool Mv:Str:Bool Mc:Str:Bool H:osutil.MountEntry.Name H:osutil.MountEntry.Dir H:osutil.MountEntry.Type H:osutil.MountEntry.Options H:osutil.MountEntry.DumpFrequency H:osutil.MountEntry.CheckPassNumber
+//@   ensures addedDesiredEntries[entry.Dir]
+
+//@ func dyncall:neededChanges#0
+//@   trusted
+//@   assigns nothing
+//@ func dyncall:neededChanges#1
+//@   trusted
+//@   assigns nothing
+//@ func dyncall:neededChanges#2
+//@   trusted
+//@   assigns C:Slice Md:Str:Bool Mv:Str:Bool Mc:Str:Bool H:osutil.MountEntry.Name H:osutil.MountEntry.Dir H:osutil.MountEntry.Type H:osutil.MountEntry.Options H:osutil.MountEntry.DumpFrequency H:osutil.MountEntry.CheckPassNumber
+//@ func dyncall:neededChanges#3
+//@   trusted
+//@   assigns C:Slice Md:Str:Bool Mv:Str:Bool Mc:Str:Bool H:osutil.MountEntry.Name H:osutil.MountEntry.Dir H:osutil.MountEntry.Type H:osutil.MountEntry.Options H:osutil.MountEntry.DumpFrequency H:osutil.MountEntry.CheckPassNumber
+//@ func dyncall:neededChanges#4
+//@   trusted
+//@   assigns C:Slice Md:Str:Bool Mv:Str:Bool Mc:Str:Bool H:osutil.MountEntry.Name H:osutil.MountEntry.Dir H:osutil.MountEntry.Type H:osutil.MountEntry.Options H:osutil.MountEntry.DumpFrequency H:osutil.MountEntry.CheckPassNumber
+//@ func dyncall:neededChanges#5
+//@   trusted
+//@   assigns nothing
+
+//@ define hasOpt(e osutil.MountEntry, o string) = exists q int :: 0 <= q && q < len(e.Options) && e.Options[q] == o
+//@ define hasOptPrefix(e osutil.MountEntry, p string) = exists q int :: 0 <= q && q < len(e.Options) && strings.HasPrefix(e.Options[q], p)
+//@ define unchangedIn(e osutil.MountEntry, d *osutil.MountEntry) = e.Name == d.Name && e.Dir == d.Dir && e.Type == d.Type && e.DumpFrequency == d.DumpFrequency && e.CheckPassNumber == d.CheckPassNumber && len(e.Options) == len(d.Options) && forall q int :: 0 <= q && q < len(e.Options) ==> e.Options[q] == d.Options[q]
+//@ define sameScalars(e osutil.MountEntry, d *osutil.MountEntry) = e.Name == d.Name && e.Dir == d.Dir && e.Type == d.Type && e.DumpFrequency == d.DumpFrequency && e.CheckPassNumber == d.CheckPassNumber && len(e.Options) == len(d.Options)
+//@ define mayReuse(e osutil.MountEntry, desiredMap map[string]*osutil.MountEntry) = hasOptPrefix(e, "x-snapd.origin" + "=") || hasOpt(e, "x-snapd.synthetic") || (has(desiredMap, e.Dir) && unchangedIn(e, desiredMap[e.Dir]))
+
+//@ func neededChanges
+//@   props C28
+//@   loop 4: invariant -1 <= idx4 && idx4 < len(current)
+//@   loop 4: invariant forall id mountEntryId :: reuse[id] ==> exists p int :: 0 <= p && p <= idx4 && id == specID(current[p].Dir, current[p].Type)
+//@   loop 4: step forall id mountEntryId :: reuse[id] && !old(reuse[id]) ==> id == specID(current[idx4].Dir, current[idx4].Type)
+//@   loop 4: step forall id mountEntryId :: old(reuse[id]) ==> reuse[id]
+//@   loop 4: step (exists id mountEntryId :: reuse[id] && !old(reuse[id])) ==> mayReuse(current[idx4], desiredMap)
+//@   loop 4: step old(skipDir) != "" && strings.HasPrefix(current[idx4].Dir, old(skipDir)) ==> skipDir == old(skipDir) && forall id mountEntryId :: reuse[id] == old(reuse[id])
+//@   loop 4: step skipDir != "" && !(old(skipDir) != "" && strings.HasPrefix(current[idx4].Dir, old(skipDir))) ==> skipDir == strings.TrimSuffix(current[idx4].Dir, "/") + "/" && forall id mountEntryId :: reuse[id] == old(reuse[id])
+//@   loop 5: invariant -1 <= i && i < len(unmountOrder) && len(changes) == len(unmountOrder) - 1 - i
+//@   loop 5: step len(changes) == old(len(changes)) + 1 && i == old(i) - 1
+//@   loop 5: step forall k int :: {changes[k]} 0 <= k && k < old(len(changes)) ==> changes[k] == old(changes[k])
+//@   loop 5: step changes[len(changes)-1].Entry.Name == unmountOrder[old(i)].Name && changes[len(changes)-1].Entry.Dir == unmountOrder[old(i)].Dir && changes[len(changes)-1].Entry.Type == unmountOrder[old(i)].Type
+//@   loop 5: step changes[len(changes)-1].Action == Keep || changes[len(changes)-1].Action == Unmount
+//@   loop 5: step (changes[len(changes)-1].Action == Keep) == reuse[specID(unmountOrder[old(i)].Dir, unmountOrder[old(i)].Type)]
+//@   loop 5: step changes[len(changes)-1].Action == Keep ==> changes[len(changes)-1].Entry.Options == unmountOrder[old(i)].Options
+//@   loop 14: invariant -1 <= idx14 && len(changes) == len(old(currentProfile.Entries)) + idx14 + 1
+//@   loop 14: step len(changes) == old(len(changes)) + 1 && changes[len(changes)-1].Action == Mount
+//@   loop 14: step forall k int :: {changes[k]} 0 <= k && k < old(len(changes)) ==> changes[k] == old(changes[k])
+//@   ensures [count] len(result) >= len(old(currentProfile.Entries))
+
+// The same facts as quantified loop invariants, carried to the exit as
+//   forall k < len(current): result[k].Action is Keep or Unmount;  forall k >= len(current): result[k].Action == Mount
+// do discharge (loop 5: allocated(changes[k]) && Action in {Keep,Unmount}, entry fields equal to
+// unmountOrder[n-1-k], Keep iff reuse[..]; loop 14 likewise), but only with one of the three solvers and
+// within 2-10 s, because the two branches of the unmount loop are merged before the back edge; under
+// load they time out, so they are stated as per-iteration step clauses instead.
+
+// ---- the orders used for mounting -----------------------------------------------------------
+
+//@ func specSlash
+//@   pure
+
+// a directory with exactly one trailing slash appended if it has none
+func specSlash(d string) string {
+	if strings.HasSuffix(d, "/") {
+		return d
+	}
+	return d + "/"
+}
+
+//@ func specDirBefore
+//@   pure
+
+// Go's byte-wise string order on the slash-terminated directories
+func specDirBefore(a, b string) bool { return specSlash(a) < specSlash(b) }
+
+// origin classes of byOriginAndMountPoint: overname 0, content (anything else) 1, layout 2
+//@ func specOriginRank
+//@   pure
+
+func specOriginRank(o string) int {
+	if o == "overname" {
+		return 0
+	}
+	if o == "layout" {
+		return 2
+	}
+	return 1
+}
+
+//@ func (byOriginAndMountPoint).Less
+//@   props C28
+//@   nopanic
+//@   requires 0 <= i && i < len(c) && 0 <= j && j < len(c)
+//@   ensures [class-order] specOriginRank(final(iOrigin)) < specOriginRank(final(jOrigin)) ==> result
+//@   ensures [class-order-rev] specOriginRank(final(iOrigin)) > specOriginRank(final(jOrigin)) ==> !result
+//@   ensures [same-class] specOriginRank(final(iOrigin)) == specOriginRank(final(jOrigin)) ==> result == specDirBefore(c[i].Dir, c[j].Dir)
+
+//@ func (byOvernameAndMountPoint).Less
+//@   props C28
+//@   nopanic
+//@   requires 0 <= i && i < len(c) && 0 <= j && j < len(c)
+//@   ensures [overname-first] final(iOrigin) == "overname" && final(jOrigin) != "overname" ==> result
+//@   ensures [overname-first-rev] final(iOrigin) != "overname" && final(jOrigin) == "overname" ==> !result
+//@   ensures [same-class] (final(iOrigin) == "overname") == (final(jOrigin) == "overname") ==> result == specDirBefore(c[i].Dir, c[j].Dir)
